@@ -19,7 +19,7 @@ RULE = ("JSON-expressible documents rendered as one JSON text (valid YAML flow s
         "with odd integers up to 2^53-1, so that the same text is unpacked into a typed struct. Each text goes through the three loaders in memory "
         "and through *WithFile from a temporary directory, with no options / PathSep / VarExp / both. Oracle: all loaders accept the "
         "text; the generic views are equal with numbers compared by value; typed results are identical with numbers held by interface{} fields compared by value (value or failure); each "
-        "*WithFile result equals its in-memory counterpart; a typed failure about a setting names the file; a missing file is an "
+        "*WithFile result equals its in-memory counterpart; a typed failure about a setting names the file - also after in-memory settings were merged over the loaded document around (not over) the faulty setting (overlay); a missing file is an "
         "error. The yaml and json results are also compared with the Lean model on the document in the respective number "
         "representation. Plus: integers beyond 2^53 that float64 holds exactly (up to the int64 limits) into typed targets; objects that exist only as the prefix of dotted names with a typed failure located on them; one option slice with spare capacity handed to all loader calls (must come back unchanged). Non-trivial: the document contains a number, or the typed unpack fails. Distinct by (shape, number "
         "classes, option set, outcome).")
@@ -190,6 +190,7 @@ def gen(rng, tier):
              "_sig": "%s|%s|%s|%s" % ("+".join(sorted(stats)), "+".join(o["o"] for o in opts), shape_of(doc), i % 7)}
         yield c
     yield from gen_dotted_prefix(rng.fork("dotted-prefix"), n // 8)
+    yield from gen_overlay(rng.fork("overlay"), n // 8)
 
 
 def gen_dotted_prefix(rng, n):
@@ -215,6 +216,37 @@ def gen_dotted_prefix(rng, n):
             want = k1 + "." + k2
         yield {"k": "frontends", "doc": doc, "text": render(doc), "opts": [opt("PathSep", ".")], "ty": ty, "fileName": rng.pick(["conf", "app config"]),
                "exact": True, "_tag": "frontends/dotted-prefix", "_nt": True, "_sig": "dotted-prefix|%d|%s|%d" % (shape, want, i % 5)}
+
+
+def gen_overlay(rng, n):
+    """settings from memory merged over the loaded file before it is unpacked, touching the objects around the fault but
+    not the faulty setting: what was read from the file still names the file"""
+    for i in range(n):
+        k1, k2, k3 = rng.pick(["a", "b", "srv"]), rng.pick(["x", "y"]), rng.pick(["p", "q"])
+        shape = rng.below(4)
+        if shape == 0:      # an object where the target wants a number; the overlay adds a setting to the object
+            ty = TG.T("struct", f=[{"n": "A", "tag": k1, "v": "", "ty": TG.T(rng.pick(["int", "string", "bool", "float64"]))}])
+            doc = M([(k1, M([(k2, I(1))]))]); over = M([(k1, M([(k3, S("t"))]))])
+            want = k1
+        elif shape == 1:    # a required setting missing from an object that the overlay touches
+            inner = TG.T("struct", f=[{"n": "X", "tag": k2, "v": "", "ty": TG.T("int")}, {"n": "P", "tag": k3, "v": "", "ty": TG.T("int")},
+                                      {"n": "D", "tag": "d", "v": rng.pick(["required", "nonzero"]), "ty": TG.T(rng.pick(["string", "int"]))}])
+            ty = TG.T("struct", f=[{"n": "A", "tag": k1, "v": "", "ty": inner}])
+            doc = M([(k1, M([(k2, I(3))]))]); over = M([(k1, M([(k3, I(4))]))])
+            want = k1 + ".d"
+        elif shape == 2:    # the fault two levels down, the overlay touches both levels
+            inner = TG.T("struct", f=[{"n": "X", "tag": k2, "v": "", "ty": TG.T("int")}, {"n": "O", "tag": "o", "v": "", "ty": TG.T("int")}])
+            ty = TG.T("struct", f=[{"n": "A", "tag": k1, "v": "", "ty": inner}])
+            doc = M([(k1, M([(k2, M([(k3, I(3))]))]))]); over = M([(k1, M([("o", I(1)), (k2, M([("z", I(1))]))]))])
+            want = k1 + "." + k2
+        else:               # a wrong leaf next to settings the overlay replaces
+            ty = TG.T("struct", f=[{"n": "A", "tag": k1, "v": "", "ty": TG.T("struct", f=[{"n": "X", "tag": k2, "v": "", "ty": TG.T("int")},
+                                                                                       {"n": "P", "tag": k3, "v": "", "ty": TG.T("string")}])}])
+            doc = M([(k1, M([(k2, S("not a number")), (k3, S("old"))]))]); over = M([(k1, M([(k3, S("new"))]))])
+            want = k1 + "." + k2
+        yield {"k": "frontends", "doc": doc, "text": render(doc), "overlay": over, "opts": rng.pick([[], [opt("PathSep", ".")]]), "ty": ty,
+               "fileName": rng.pick(["conf", "app config"]), "exact": True, "_tag": "frontends/overlay", "_nt": True,
+               "_sig": "overlay|%d|%s|%d" % (shape, want, i % 5)}
 
 
 def numval(d):
@@ -315,7 +347,8 @@ def normalize_pair(case, impl, model):
 
 def fix_candidate(cand, base):
     """shrinking: the text is always the rendering of the document"""
-    if not isinstance(cand.get("doc"), (dict, type(None))) or cand.get("ty") != base.get("ty") or cand.get("exact") != base.get("exact"):
+    if not isinstance(cand.get("doc"), (dict, type(None))) or cand.get("ty") != base.get("ty") or cand.get("exact") != base.get("exact") \
+            or cand.get("overlay") != base.get("overlay"):
         return None
     try:
         if not expressible(cand["doc"]):
